@@ -55,7 +55,25 @@ impl ReactiveNode for RwLock<ArcAsyncDerivedInner> {
     }
 
     fn update_if_necessary(&self) -> bool {
-        let mut guard = self.write().or_poisoned();
+        // This is what a *subscriber* asks of one of its sources while it is only
+        // checking whether it has to re-run. Every change of an async derived's value
+        // (or loading state) is announced by `notify_subs`, which marks all subscribers
+        // dirty, so a subscriber that is merely checking has nothing new to see here.
+        //
+        // In particular this must not consume the `Dirty` state: that state tells this
+        // derived's own task to run the async computation again (see `needs_rerun`).
+        // If a subscriber's check cleared it, the task would find nothing to do and the
+        // value would stay on the old inputs for good.
+        false
+    }
+}
+
+impl ArcAsyncDerivedInner {
+    /// Whether the async computation has to run again: this node was marked dirty or one
+    /// of its sources has changed. Clears the `Dirty` state, so it must only be called by
+    /// the task that re-runs the computation.
+    pub(crate) fn needs_rerun(this: &RwLock<Self>) -> bool {
+        let mut guard = this.write().or_poisoned();
         let (is_dirty, sources) = (
             guard.state == AsyncDerivedState::Dirty,
             (guard.state != AsyncDerivedState::Notifying)
